@@ -215,11 +215,12 @@ func runDriver(path string, lines []string) (map[string]string, error) {
 
 // Corr batches correspondence cases for one stage.
 type Corr struct {
-	Stage string
-	lines []string
-	impl  map[string]string
-	info  map[string]interface{}
-	n     int
+	premiseFailures []string // premises of a theorem that failed on the implementation's data
+	Stage           string
+	lines           []string
+	impl            map[string]string
+	info            map[string]interface{}
+	n               int
 }
 
 func newCorr(stage string) *Corr {
@@ -237,6 +238,9 @@ func (c *Corr) add(payload string, impl string, info interface{}) {
 
 // run executes the model on all cases and records mismatches in the report.
 func (c *Corr) run(ctx *Ctx) {
+	for _, pf := range c.premiseFailures {
+		ctx.Rep.mismatch(c.Stage+"-premise", nil, "premise holds", pf)
+	}
 	ctx.Rep.CorrCases[c.Stage] += c.n
 	if c.n == 0 {
 		return
